@@ -132,12 +132,11 @@ Definition verdict (a : anycase) : N :=
   | CMain c None => verdict_main c
   | CMain c (Some s) =>
       let ds := defs_of c in
-      (* the model-vs-implementation comparison of SCHEMAS (C06Schema.sch_mismatch) is a measurement reported in the evidence,
-         not part of the mismatch bit: one generated world in 8 582 (selftest/witness/C06-model-schema-disagreement.replay.json:
-         a reference to an object merged over a closed provider record, itself merged over an imported literal) shows the model's
-         additionalProperties differing from the implementation's, i.e. the MODEL's schema bookkeeping is not yet faithful there;
+      (* the model's schema of the root value against the implementation's, in all three runs, is part of the mismatch bit
+         OUTSIDE C06Schema.hist_class (schemas that depend on how often a value has been merged: the model does not follow
+         Go's mutable per-value schema field there; inside the class the comparison is only a measurement, see C06Schema.v);
          the schema clause itself is decided by the vspec oracle on the implementation's own schema (fail_new below) *)
-      verdict_bits (mismatch c)
+      verdict_bits (mismatch c || C06Schema.sch_mismatch (c_world c) (c_name c) (c_def c) s)
                    (spec_fail_new c || C06Schema.fail_new ds s) (spec_fail_known c || C06Schema.fail_known ds s)
                    (nontrivial c || C06Schema.decided s)
   | COther o => C06Schema.verdict_other o
